@@ -118,6 +118,9 @@ def readonly_battery(n):
     t = n.to_tree()
     t.get_depth(n), t.is_in_tree(n), t.get_xpath(n)
     n.find("//RL"), list(n.findall("//RL")), list(n.findall("/RP/@c RL"))
+    from pyoak.match.xpath import ASTXpath
+
+    [ASTXpath("//RL").match(n, i.node) for i in n.dfs()], ASTXpath("/RP").match(n, n), ASTXpath("//RL").match(t, n)
     NodeMatcher.from_pattern("(* @v -> x)")[0].match(n)
     _V().visit(n)
     n == n, hash(n), repr(n), n.is_equal(n), n.as_dict(), n.to_json(), n.to_yaml(), n.to_msgpck()
@@ -385,6 +388,13 @@ class Model:
 
             self._rt_model(w, src, new, errs)
         elif k == "drop":
+            if judge:
+                # every judged drop is preceded by the read-only battery on the tree that is about to be dropped: a cache
+                # filled by a read-only operation must not keep the tree alive or registered afterwards
+                for x in subtree(w.slots[op[1]]):
+                    readonly_battery(x)
+                    x.to_tree()
+                del x
             w.slots[op[1]] = None
         else:
             raise ValueError(op)
